@@ -11,9 +11,13 @@ VALUE_COLS = {"managed_objects": ["value"]}
 
 
 def snapshot(server, mask_value_uids=()):
-    """Raw-table snapshot (stdlib sqlite3).  Key material of the listed uids is replaced by its
-    length (for objects whose value is random by design: Create / CreateKeyPair)."""
-    d = server.raw_dump()
+    """Raw-table snapshot (stdlib sqlite3).  Key material of the listed uids is masked (for
+    objects whose value is random by design: Create / CreateKeyPair)."""
+    return snapshot_masked(server.raw_dump(), mask_value_uids)
+
+
+def snapshot_masked(d, mask_value_uids=()):
+    d = copy.deepcopy(d)
     mask = set(str(u) for u in mask_value_uids)
     if mask and "managed_objects" in d:
         t = d["managed_objects"]
@@ -86,7 +90,7 @@ def pool_items(idx, v, who="alice"):
     add("ok/Register-opaque", F.register_item("OpaqueData", label="b3"))
     add("ok/Register-cert", F.register_item("Certificate"))
     add("ok/CreateKeyPair", F.keypair_item())
-    add("ok/DeriveKey", {"op": "DeriveKey", "uids": [sk_act], "method": "HASH", "attrs": la, "dp": {"params": {"hash": "SHA_256"}, "data": "0102"}})
+    add("ok/DeriveKey", {"op": "DeriveKey", "uids": [sk_act], "method": "PBKDF2", "attrs": la, "dp": {"params": {"hash": "SHA_256"}, "salt": "0102", "iter": 2}})
     add("ok/Get", {"op": "Get", "uid": sk_act})
     add("ok/GetAttributes", {"op": "GetAttributes", "uid": sk_pre})
     add("ok/GetAttributeList", {"op": "GetAttributeList", "uid": sk_pre})
